@@ -385,7 +385,6 @@ func (n NaturalLanguageValues) MarshalJSON() ([]byte, error) {
 	if l == 1 {
 		v := n[0]
 		if len(v.Value) > 0 {
-			v.Value = unescape(v.Value)
 			stringBytes(&b, v.Value, false)
 			return b.Bytes(), nil
 		}
@@ -500,7 +499,7 @@ func (l *LangRefValue) UnmarshalJSON(data []byte) error {
 	val, err := p.ParseBytes(data)
 	if err != nil {
 		l.Ref = NilLangRef
-		l.Value = unescape(data)
+		l.Value = Content(data)
 		return nil
 	}
 	switch val.Type() {
@@ -508,11 +507,11 @@ func (l *LangRefValue) UnmarshalJSON(data []byte) error {
 		o, _ := val.Object()
 		o.Visit(func(key []byte, v *fastjson.Value) {
 			l.Ref = LangRef(key)
-			l.Value = unescape(v.GetStringBytes())
+			l.Value = Content(v.GetStringBytes())
 		})
 	case fastjson.TypeString:
 		l.Ref = NilLangRef
-		l.Value = unescape(val.GetStringBytes())
+		l.Value = Content(val.GetStringBytes())
 	}
 
 	return nil
@@ -521,7 +520,7 @@ func (l *LangRefValue) UnmarshalJSON(data []byte) error {
 // UnmarshalText implements the TextEncoder interface
 func (l *LangRefValue) UnmarshalText(data []byte) error {
 	l.Ref = NilLangRef
-	l.Value = unescape(data)
+	l.Value = Content(data)
 	return nil
 }
 
@@ -704,27 +703,13 @@ func (c Content) Format(s fmt.State, verb rune) {
 	}
 }
 
-func unescape(b []byte) []byte {
-	// FIXME(marius): I feel like I'm missing something really obvious about encoding/decoding from Json regarding
-	//    escape characters, and that this function is just a hack. Be better future Marius, find the real problem!
-	b = bytes.ReplaceAll(b, []byte{'\\', 'a'}, []byte{'\a'})
-	b = bytes.ReplaceAll(b, []byte{'\\', 'f'}, []byte{'\f'})
-	b = bytes.ReplaceAll(b, []byte{'\\', 'n'}, []byte{'\n'})
-	b = bytes.ReplaceAll(b, []byte{'\\', 'r'}, []byte{'\r'})
-	b = bytes.ReplaceAll(b, []byte{'\\', 't'}, []byte{'\t'})
-	b = bytes.ReplaceAll(b, []byte{'\\', 'v'}, []byte{'\v'})
-	b = bytes.ReplaceAll(b, []byte{'\\', '"'}, []byte{'"'})
-	b = bytes.ReplaceAll(b, []byte{'\\', '\\'}, []byte{'\\'}) // this should cover the case of \\u -> \u
-	return b
-}
-
 // UnmarshalJSON decodes an incoming JSON document into the receiver object.
 func (n *NaturalLanguageValues) UnmarshalJSON(data []byte) error {
 	p := fastjson.Parser{}
 	val, err := p.ParseBytes(data)
 	if err != nil {
 		// try our luck if data contains an unquoted string
-		n.Append(NilLangRef, unescape(data))
+		n.Append(NilLangRef, Content(data))
 		return nil
 	}
 	switch val.Type() {
@@ -732,12 +717,12 @@ func (n *NaturalLanguageValues) UnmarshalJSON(data []byte) error {
 		ob, _ := val.Object()
 		ob.Visit(func(key []byte, v *fastjson.Value) {
 			if dat := v.GetStringBytes(); len(dat) > 0 {
-				n.Append(LangRef(key), unescape(dat))
+				n.Append(LangRef(key), Content(dat))
 			}
 		})
 	case fastjson.TypeString:
 		if dat := val.GetStringBytes(); len(dat) > 0 {
-			n.Append(NilLangRef, unescape(dat))
+			n.Append(NilLangRef, Content(dat))
 		}
 	case fastjson.TypeArray:
 		for _, v := range val.GetArray() {
